@@ -1,7 +1,10 @@
 package main
 
-import . "zharness/hz"
+import (
+	"zharness/embx"
+	. "zharness/hz"
+)
 
 func main() {
-	Main(map[string]Runner{"abi": runAbi, "calls": runCalls, "removed": runRemoved})
+	Main(map[string]Runner{"abi": embx.RunAbi, "calls": embx.RunCalls, "removed": embx.RunRemoved})
 }
